@@ -280,7 +280,14 @@ def run_case(item):
                     for q in range(k):
                         a_, b_ = (ch[q], ch[q + 1]) if rng.random() < 0.5 else (ch[q + 1], ch[q])
                         chain *= AntiSymmetricTensor("f", (a_,), (b_,)) ** rng.choice([1, 1, 1, 2])
-                    if rng.random() < 0.5:
+                    r3 = rng2.random()
+                    if r3 < 0.3:
+                        # both ends are target indices (a matrix power of f): with a diagonal Fock
+                        # matrix the result carries a delta of the two ends
+                        if rng2.random() < 0.5:
+                            chain *= NonSymmetricTensor("c", (ch[1],))
+                        T = T + [ch[0], ch[-1]]
+                    elif rng.random() < 0.5:
                         chain *= NonSymmetricTensor("c", (ch[0], ch[-1]))      # closed: all contracted
                     else:
                         chain *= NonSymmetricTensor("c", (ch[-1],))           # open: ch[0] is a target
